@@ -544,7 +544,12 @@ void usim_probe(const char* name) {
   R.probes.push(Run::Probe{name, 1});
 }
 void usim_note_nontrivial(void) { R.nontrivial = true; }
-void usim_trace(uint64_t v) { hash_fold(0x7ace ^ v); }
+void usim_trace(uint64_t v) {
+  hash_fold(0x7ace ^ v);
+  R.sem_seq = (R.sem_seq ^ v) * 0x100000001b3ull + 0x9e37;
+  uint64_t x = v + 0x9e3779b97f4a7c15ull;
+  R.sem_set += Rng::splitmix(x);
+}
 
 void usim_sample(const char* fmt, ...) {
   va_list ap;
